@@ -1,0 +1,78 @@
+//go:build verif
+
+// Contracts for correlation and capability headers (property C20). Comment-only.
+
+package vgirpc
+
+// resolveRequestID: the caller's trimmed id when it is non-empty and at most 128 bytes, else a
+// fresh one; newRequestID renders 8 random bytes as 16 lower-case hex characters.
+//
+//@ ghost pred lowerHex(s string)
+//@ func newRequestID
+//@   property C20
+//@   at call rand.Read assert [eightbytes] len(arg0) == 8
+//@   at call hex.EncodeToString assert [all] len(arg0) == 8
+//@   ensures [shape] len(result) == 16 && lowerHex(result)
+//
+//@ func resolveRequestID
+//@   property C20
+//@   at call (http.Header).Get assert [header] arg1 == "X-Request-ID"
+//@   ensures [local_fresh_ret1] (id == "" || len(id) > 128) && len(result) == 16 && lowerHex(result)
+//@   ensures [local_echo_ret2] result == id && id != "" && len(id) <= 128 && trimmed(id)
+
+// ServeHTTP: the request id is on the response before anything else can answer; once the
+// serve-start hook has succeeded the capability headers are set before anything is routed.
+//
+//@ func (*HttpServer).ServeHTTP
+//@   property C20
+//@   pathflag idSet
+//@   pathflag capsSet
+//@   at call (http.Header).Set#1 assert [requestid] arg1 == "X-Request-ID" && arg2 == requestID
+//@   at call (http.Header).Set#1 mark idSet
+//@   at call (*HttpServer).addCapabilityHeaders mark capsSet
+//@   at call * except resolveRequestID, http.ResponseWriter.Header#1, (http.Header).Set#1 assert [idfirst] idSet
+//@   at call * except (*HttpServer).InitPages, (*HttpServer).addCapabilityHeaders after (*HttpServer).InitPages assert [capsfirst] capsSet
+
+// addCapabilityHeaders: the supported-encodings header is always set (to the rendered
+// producible set) and the externalization header always says true or false.
+//
+//@ func (*HttpServer).addCapabilityHeaders
+//@   property C20
+//@   at call (http.Header).Set#1 assert [encodings] arg1 == "VGI-Supported-Encodings" && arg2 == h.supportedEncodingsValue
+//@   at call (http.Header).Set#5 assert [externalizationtrue] arg1 == "VGI-Externalization-Enabled" && arg2 == "true"
+//@   at call (http.Header).Set#6 assert [externalizationfalse] arg1 == "VGI-Externalization-Enabled" && arg2 == "false"
+
+// addCorsHeaders: every capability or rejection header the configuration can emit is exposed.
+//
+// (membership among the first 24 entries — the list has 13 fixed and at most 8 configured entries before
+// the echo names are appended — written out so that the solvers never have to guess an index)
+//@ pure func inHead(xs []string, x string) bool = (len(xs) > 0 && xs[0] == x) || (len(xs) > 1 && xs[1] == x) || (len(xs) > 2 && xs[2] == x) || (len(xs) > 3 && xs[3] == x) || (len(xs) > 4 && xs[4] == x) || (len(xs) > 5 && xs[5] == x) || (len(xs) > 6 && xs[6] == x) || (len(xs) > 7 && xs[7] == x) || (len(xs) > 8 && xs[8] == x) || (len(xs) > 9 && xs[9] == x) || (len(xs) > 10 && xs[10] == x) || (len(xs) > 11 && xs[11] == x) || (len(xs) > 12 && xs[12] == x) || (len(xs) > 13 && xs[13] == x) || (len(xs) > 14 && xs[14] == x) || (len(xs) > 15 && xs[15] == x) || (len(xs) > 16 && xs[16] == x) || (len(xs) > 17 && xs[17] == x) || (len(xs) > 18 && xs[18] == x) || (len(xs) > 19 && xs[19] == x) || (len(xs) > 20 && xs[20] == x) || (len(xs) > 21 && xs[21] == x) || (len(xs) > 22 && xs[22] == x) || (len(xs) > 23 && xs[23] == x)
+//@ pure func exposesBase(xs []string) bool =
+//@     inHead(xs, "WWW-Authenticate") && inHead(xs, "X-Request-ID") && inHead(xs, "VGI-Supported-Encodings") &&
+//@     inHead(xs, "VGI-Externalization-Enabled") && inHead(xs, maxResponseBytesHeader) && inHead(xs, maxExternalizedResponseBytesHeader)
+//@ pure func exposesConfigured(xs []string, h *HttpServer) bool =
+//@     (h.maxRequestBytes > 0 ==> inHead(xs, "VGI-Max-Request-Bytes")) &&
+//@     (h.uploadURLProvider != nil ==> inHead(xs, "VGI-Upload-URL-Support") && (h.maxUploadBytes > 0 ==> inHead(xs, "VGI-Max-Upload-Bytes"))) &&
+//@     (h.proxyProofRequired ==> inHead(xs, "VGI-Proxy-Proof-Required")) &&
+//@     (h.introspect != nil ==> inHead(xs, "VGI-Token-Introspection"))
+//@ pure func exposesAll(xs []string, h *HttpServer) bool = exposesBase(xs) && exposesConfigured(xs, h) && inHead(xs, "VGI-Auth-Reason") &&
+//@     (h.proxyProofRequired || len(h.extraProxyAuthHeaders) > 0 ==> inHead(xs, "VGI-Auth-Proxy-Required"))
+//@ func (*HttpServer).addCorsHeaders
+//@   property C20
+//@   # (proof hints, each an obligation: the list as it stands at the unconditional steps)
+//@   at call append#6 assert [hint_base] exposesBase(arg0)
+//@   at call append#6 assert [hint_configured] exposesConfigured(arg0, h)
+//@   at call (*HttpServer).proxyAuthHeaders assert [hint_reason] exposesBase(expose) && exposesConfigured(expose, h) && inHead(expose, "VGI-Auth-Reason")
+//@   loop 0 invariant exposesBase(expose)
+//@   loop 0 invariant exposesConfigured(expose, h)
+//@   loop 0 invariant inHead(expose, "VGI-Auth-Reason") && (h.proxyProofRequired || len(h.extraProxyAuthHeaders) > 0 ==> inHead(expose, "VGI-Auth-Proxy-Required"))
+//@   at call strings.Join assert [exposed] exposesAll(arg0, h)
+//@   at call (http.Header).Set#4 assert [expose] arg1 == "Access-Control-Expose-Headers"
+
+// proxyAuthHeaders is non-empty exactly when the configuration depends on a proxy; the 401
+// renderer emits VGI-Auth-Proxy-Required only then.
+//
+//@ func (*HttpServer).proxyAuthHeaders
+//@   property C20
+//@   modifies nothing
+//@   ensures [nonempty] (len(result) > 0) <==> (h.proxyProofRequired || len(h.extraProxyAuthHeaders) > 0)
